@@ -244,6 +244,10 @@ def generate(rng, tier):
             elif rng.random() < 0.25:
                 # a palette of a configuration the caller does not keep: ColorsConfig(explicit).get_palette()
                 ops.append({"op": "orphan_palette", "gc": rng.random() < 0.5})
+            elif synced_cands and rng.random() < 0.25:
+                # a settings dialog previews a component under short-lived configurations, one after another: each
+                # is made, asked for the component's palette and let go before the next one is made
+                ops.append({"op": "preview", "comp": rng.choice(synced_cands), "n": rng.randint(2, 3)})
             else:
                 ops.append({"op": "get_palette", "comp": rng.choice(synced_cands) if synced_cands and rng.random() < 0.4 else None})
         elif r < 0.79:
@@ -380,6 +384,7 @@ class World:
         self.log = log
         self.no_color = bool(trace.get("no_color"))
         self.conf_cls = conf_class(trace, color)
+        self.preview_cls = None
         self.builtin_flat = flatten(self.conf_cls.BUILT_IN_CONFIG)
         self.default_builtin_flat = flatten(color.ColorsConfig.BUILT_IN_CONFIG)
         self.classes = {}
@@ -746,6 +751,9 @@ def execute(trace, rng):
     log = EventLog()
     rw.gc.disable()
     from ak import color
+    # ids inside the package are simulated: an object keeps its id while alive, the id of a dead object goes to
+    # the next new one (what CPython's allocator does often, here always and reproducibly)
+    rw.install_id_seam("always", 14)
     w = World(trace, log)
     status = {"status": OK}
     try:
@@ -905,6 +913,27 @@ def execute(trace, rng):
                     w.orphans.pop(0)
                 w.orphans.append((pal2, reg2))
                 w.stats["orphan_palettes"] = w.stats.get("orphan_palettes", 0) + 1
+            elif k == "preview":
+                name = op["comp"]
+                if name not in REAL and name not in w.comp_spec:
+                    continue
+                if w.preview_cls is None:
+                    # the dialog's own configuration class: a plain subclass (no __slots__), so its objects can be
+                    # weakly referenced - which is how the id seam learns that one is gone (ColorsConfig objects
+                    # themselves cannot be: their ids are the real ones, the seam is inert for them)
+                    w.preview_cls = type("PreviewColorsConfig", (w.conf_cls,), {"__doc__": "configuration of a preview"})
+                for _ in range(op.get("n", 2)):
+                    conf2 = w.sut("ColorsConfig(init) (preview)", w.preview_cls, real_init(trace), no_color=nc)
+                    reg2 = Registry()
+                    reg2.deliver(flatten(model_init(trace) or {}))
+                    reg2.deliver(w.builtin_flat)
+                    used2 = []
+                    w.sut(f"{name}(preview conf)", w.cls(name), conf2)
+                    w.deliver_comp(reg2, name, used2)
+                    w.check_conf(conf2, reg2, used2, "M")
+                    del conf2
+                    rw.gc.collect()
+                    w.stats["previews"] = w.stats.get("previews", 0) + 1
             elif k == "get_palette":
                 w.hold(M, regM, op.get("comp") if op.get("comp") in w.used else None)
             else:
